@@ -525,6 +525,10 @@ def suite_files(ctx):
             cases.append((f'tree{t}', gen_tree(
                 rng, int(rng.integers(1, 5)), pool if t % 3 else [],
                 allow_empty=(t % 4 == 0))))
+        # names with a leading underscore (as the meta data emg3d adds itself)
+        cases.append((f'tree{3*ntree}', {
+            '_meta': {'_w': rng.standard_normal(3), 'b': 1.5, '_n': None},
+            '_weights': rng.standard_normal((2, 2)), 'a': 'x', '_': 3}))
         import contextlib
         import io as _io
         sink = _io.StringIO()
@@ -603,6 +607,41 @@ def suite_files(ctx):
                 f'saved one: {diff(res, src) if not res.startswith("ERROR") else res[:200]}',
                 {'case': name, 'format': fmt, 'saved': src[:3000],
                  'loaded': res[:3000], 'model': o[:3000]})
+        # arrays without elements keep shape and dtype (hypothesis `hcod` of
+        # load_save_json at its edge: tolist() of shape (0, 3) is [])
+        for shp_ in [(0,), (0, 3), (2, 0), (2, 0, 3), (3, 1, 0)]:
+            for dt in (float, complex, np.int64):
+                arr0 = np.zeros(shp_, dtype=dt)
+                for fmt in FMTS:
+                    fn = os.path.join(tmp, f'e.{fmt}')
+                    try:
+                        emg3d.save(fn, a={'e': arr0, 'n': 1}, verb=0)
+                        got = emg3d.load(fn, verb=0)['a']['e']
+                        okk = isinstance(got, np.ndarray) and \
+                            got.shape == shp_ and got.dtype == arr0.dtype
+                        det = f'{type(got).__name__} shape ' \
+                              f'{getattr(got, "shape", None)} dtype ' \
+                              f'{getattr(got, "dtype", None)}'
+                    except Exception as e:      # noqa
+                        okk, det = False, f'{type(e).__name__}: {e}'
+                    ctx.count(key=('empty-array', shp_, np.dtype(dt).name, fmt))
+                    if not okk:
+                        lost = fmt == 'json' and len(shp_) > 1 and \
+                            isinstance(got, np.ndarray) and \
+                            got.dtype == arr0.dtype and \
+                            got.shape == shp_[:shp_.index(0)+1]
+                        sig = 'json-empty-array-shape' if lost \
+                            else 'roundtrip-differs'
+                        if sig == 'roundtrip-differs':
+                            bad.append(('empty array', shp_, fmt, det))
+                        if (sig, 'corpus') not in seen:
+                            seen.add((sig, 'corpus'))
+                            ctx.violation(
+                                sig, f'an array of shape {shp_} ('
+                                f'{np.dtype(dt).name}) saved to .{fmt} is '
+                                f'loaded as {det}',
+                                {'shape': list(shp_), 'format': fmt,
+                                 'dtype': np.dtype(dt).name})
         # to_file / from_file of the classes that have them
         for cls in ['Survey', 'Simulation']:
             for i, x in enumerate(objs[cls]):
